@@ -207,42 +207,6 @@ structure Failure where
 /-! ### Recorded deviations (findings/C13.txt). Each is a decidable predicate on what was observed; a failure
 that no clause explains stays a violation. -/
 
-def pow53 : Nat := 9007199254740992
-
-/-- float64(v) rounded to 53 bits (ties to even) and back to int64; 2^63 becomes MinInt64 (amd64). -/
-def roundInt53 (v : Int) : Int :=
-  let a := v.natAbs
-  if a < pow53 then v else
-  let bits := Nat.log2 a + 1
-  let sh := bits - 53
-  let q := a >>> sh
-  let rem := a - (q <<< sh)
-  let half := 1 <<< (sh - 1)
-  let q' := if rem > half || (rem = half && q % 2 = 1) then q + 1 else q
-  let r : Int := ((q' <<< sh : Nat) : Int)
-  let r := if v < 0 then -r else r
-  if r ≥ 9223372036854775808 then -9223372036854775808 else r
-
-mutual
-def roundInts : T → T
-  | .node "num" ["i", b, v] ks =>
-    match v.toInt? with
-    | some x => .node "num" ["i", b, toString (roundInt53 x)] ks
-    | none => .node "num" ["i", b, v] ks
-  | .node tag fs ks => .node tag fs (roundIntsL ks)
-def roundIntsL : List T → List T
-  | [] => []
-  | k :: ks => roundInts k :: roundIntsL ks
-end
-
-/-- `json-int53`: the tree that came back from JSON is the original with every integer literal pushed through
-float64 (encoding/json decodes numbers into float64), and that changed at least one of them. -/
-def devJsonInt53 (f : Failure) : Bool :=
-  f.clause == "json-meaning-preserved" &&
-  match f.orig, f.got with
-  | some o, some g => meaning (roundInts o) == meaning g && meaning o != meaning g
-  | _, _ => false
-
 def stripWS (s : String) : List Char := s.toList.filter (fun c => !(c = ' ' || c = '\n' || c = '\t' || c = '\r'))
 
 /-- `multiline-creep`: two successive passes differ in white space only (a line break after one more operator of
@@ -270,41 +234,8 @@ def devIntMin64 (f : Failure) : Bool :=
   | some o => hasMinInt64 o
   | none => false
 
-def mentions (s pat : String) : Bool := (s.splitOn pat).length > 1
-
-/-- `pjson-barrier`: pipeline JSON cannot be read back when the task has a barrier node
-("unknown function type barrier"). -/
-def devPjsonBarrier (f : Failure) : Bool :=
-  f.clause == "pipeline-identical" && f.detail == "pjson:no-pipeline" && mentions f.src "|barrier("
-
-/-- `pjson-chain-after-from`: pipeline JSON cannot be read back when a where / groupBy NODE is chained to a
-from node ("parent node does not have where clause but is *pipeline.FromNode"). -/
-def devPjsonFromChain (f : Failure) : Bool :=
-  f.clause == "pipeline-identical" && f.detail == "pjson:no-pipeline" &&
-    (mentions f.src "|where(" || mentions f.src "|groupBy(")
-
-/-- `pjson-sample`: reading the JSON of a sample node panics ("must pass int64 or duration to new sample node"). -/
-def devPjsonSample (f : Failure) : Bool :=
-  f.clause == "no-panic" && f.detail == "pjson" && mentions f.src "|sample("
-
-/-- `ptick-join`: pipeline/tick dereferences nil when it renders a join node. -/
-def devPtickJoin (f : Failure) : Bool :=
-  f.clause == "no-panic" && f.detail == "ptick" && mentions f.src "|join("
-
-/-- `ptick-zero-arg`: pipeline/tick drops a zero-valued positional argument when it renders a node
-(holtWinters('value', 3, 0, 1w) becomes holtWinters('value', 3, 1w), which is not a valid call). -/
-def devPtickZeroArg (f : Failure) : Bool :=
-  f.clause == "pipeline-identical" && (f.detail == "ptick-dot:no-pipeline" || f.detail == "ptick-dot:properties") &&
-    mentions f.src "|holtWinters("
-
 def deviationOf (f : Failure) : Option String :=
-  if devJsonInt53 f then some "json-int53"
-  else if devPtickZeroArg f then some "ptick-zero-arg"
-  else if devPjsonBarrier f then some "pjson-barrier"
-  else if devPjsonFromChain f then some "pjson-chain-after-from"
-  else if devPjsonSample f then some "pjson-sample"
-  else if devPtickJoin f then some "ptick-join"
-  else if devIntMin64 f then some "int-min64"
+  if devIntMin64 f then some "int-min64"
   else if devMultilineCreep f then some "multiline-creep"
   else none
 
